@@ -136,6 +136,22 @@ JudgeArrange(c, out, err) ==
        \* a prefix of a sorted order: no row left out sorts strictly before a row that was taken
        ELSE IF \A i \in (1..n) \ {out[x] : x \in DOMAIN out} : \A x \in DOMAIN out : ~Bef(i, out[x]) THEN "ok" ELSE "rows"
 
+(* "mutate": a table (a, b) with a = r, b = 10 r in row r; mutate with two or three keywords whose names are an arrangement of  *)
+(* {a, b, c} and whose right-hand sides range over {a, b, a + b, 0} - including every way of overwriting a column that another  *)
+(* right-hand side of the SAME call reads.  Expected (C02): every right-hand side sees the table as it was before the call;     *)
+(* replaced columns are dropped, the new ones appended in keyword order.                                                        *)
+MutExprs == {"a", "b", "ab", "z"}
+MutConfigs == UNION {{[verb |-> "mutate", names |-> ns, exprs |-> es] : es \in [1..Len(ns) -> MutExprs]} :
+                        ns \in {p \in Arrs({"a", "b", "c"}) : Len(p) >= 2}}
+MutVal(x, r) == CASE x = "a" -> r [] x = "b" -> 10 * r [] x = "ab" -> 11 * r [] x = "z" -> 0
+JudgeMutate(c, names, rows, err) ==
+    IF err # "" THEN "unexpected-error"
+    ELSE LET assigned == {c.names[i] : i \in DOMAIN c.names}
+             want == SelectSeq(<<"a", "b">>, LAMBDA n : n \notin assigned) \o c.names
+             cell(n, r) == IF n \in assigned THEN MutVal(c.exprs[CHOOSE i \in DOMAIN c.names : c.names[i] = n], r) ELSE MutVal(n, r)
+         IN IF names # want THEN "names"
+            ELSE IF rows = [r \in 1..2 |-> [j \in DOMAIN want |-> cell(want[j], r)]] THEN "ok" ELSE "rows"
+
 AggRows == {<<k, v>> : k \in {99, 1, 2}, v \in {99, -1, 2}}
 AggSeqs == UNION {[1..m -> AggRows] : m \in 0..AMaxLen}
 AggConfigs == {[verb |-> "agg", rows |-> rs, op |-> o, mode |-> md] :
@@ -211,6 +227,7 @@ ASSUME Mode = "gen" => /\ ("slices" \in GenVerbs => \A c \in SliceConfigs : Prin
                        /\ ("win" \in GenVerbs => \A c \in WinConfigs : PrintT(ToJson(c)))
                        /\ ("agg" \in GenVerbs => \A c \in AggConfigs : PrintT(ToJson(c)))
                        /\ ("arrange" \in GenVerbs => \A c \in ArrConfigs : PrintT(ToJson(c)))
+                       /\ ("mutate" \in GenVerbs => \A c \in MutConfigs : PrintT(ToJson(c)))
 ASSUME Mode = "check" =>
     \A i \in DOMAIN Recs :
         LET r == Recs[i] IN
@@ -219,6 +236,7 @@ ASSUME Mode = "check" =>
                                             ELSE IF r.c.verb = "win" THEN JudgeWin(r.c, r.out, r.err)
                                             ELSE IF r.c.verb = "agg" THEN JudgeAgg(r.c, r.out, r.err)
                                             ELSE IF r.c.verb = "arrange" THEN JudgeArrange(r.c, r.out, r.err)
+                                            ELSE IF r.c.verb = "mutate" THEN JudgeMutate(r.c, r.names, r.out, r.err)
                                             ELSE JudgeUnion(r.c, r.names, r.out, r.err)]))
 
 VARIABLE x
